@@ -13,8 +13,12 @@
 // dec(enc(s)) == s for every byte string s (theorem_chunks_round_trip) -- a joint induction over both state machines with
 // the invariant that the bits in flight between them are a whole number of bytes, so the zero padding of the last chunk
 // never completes a byte.
-// Not here: the continuation-bit discipline (unit tuple_key_walk), String::from_utf8 and the one-byte form of the empty
-// string around the combiner, the descending direction (known finding C16-desc-string-prefix).
+// Around the two walks, `impl Element for String` (append_to / parse_from, tuple_key/src/lib.rs) and TupleKey::append_bytes are
+// extracted too: a string is written as its chunks, or as the single byte 0 when it is empty, and read back as the empty
+// string from a single byte and through the combiner otherwise; a non-empty string has at least two chunks, so the two
+// cases never meet, and parse_from(append_to(s)) hands back the bytes of s (theorem_string_round_trip).
+// ASSUMED there: String::from_utf8 keeps the bytes it accepts; Iterator::collect is `next() until None` (X13).
+// Not here: the continuation-bit discipline (unit tuple_key_walk), the descending direction (known finding C16-desc-string-prefix).
 use vstd::prelude::*;
 verus! {
 global size_of usize == 8;
@@ -459,6 +463,7 @@ impl<'a> Iterate7BitChunks<'a> {
         final(self).wf(), final(self).bytes@ == old(self).bytes@,
         // the byte handed out is the head of what was to come, and what is to come now is its tail
         old(self).to_come() == (match r { Some(x) => seq![x] + final(self).to_come(), None => Seq::<u8>::empty() }),
+        r is None ==> final(self).to_come() == old(self).to_come(),
 //@ >>
 //@ bodystart <<
         // (all hints are stated here, over the entry state, so that no hint is anchored at the very expressions the
@@ -536,6 +541,7 @@ impl<'a> Combine7BitChunks<'a> {
 //@ post <<
         final(self).wf(), final(self).bytes@ == old(self).bytes@,
         old(self).to_come() == (match r { Some(x) => seq![x] + final(self).to_come(), None => Seq::<u8>::empty() }),
+        r is None ==> final(self).to_come() == old(self).to_come(),
 //@ >>
 //@ loop 0 <<
             invariant self.offset <= self.bytes@.len(), self.remains_bits < 15, self.bytes@ == old(self).bytes@,
@@ -562,8 +568,130 @@ impl<'a> Combine7BitChunks<'a> {
 //@ end
 }
 
+
+// ---------------------------------------------------------------- the String element around the two walks
+spec fn str_enc(b: Seq<u8>) -> Seq<u8> { if enc(b, 0, 0).len() == 0 { seq![0u8] } else { enc(b, 0, 0) } }
+spec fn str_dec(buf: Seq<u8>) -> Seq<u8> { if buf.len() == 1 { Seq::<u8>::empty() } else { dec(buf, 0, 0) } }
+// a non-empty string has at least two chunks (so the one-byte form is the empty string's alone)
+proof fn lemma_enc_at_least_two(s: Seq<u8>)
+    requires s.len() > 0
+    ensures enc(s, 0, 0).len() >= 2
+{
+    reveal_with_fuel(enc, 5);
+    let p1 = (0u64 << 8u64) | (s[0] as u64);
+    let t = s.drop_first();
+    assert(enc(s, 0, 0) == seq![chunk_top(p1, 8)] + enc(t, low(p1, 1), 1));
+    if t.len() > 0 {
+        let p2 = (low(p1, 1) << 8u64) | (t[0] as u64);
+        assert(enc(t, low(p1, 1), 1) == seq![chunk_top(p2, 9)] + enc(t.drop_first(), low(p2, 2), 2));
+    } else {
+        assert(enc(t, low(p1, 1), 1) == seq![chunk_last(low(p1, 1), 1)]);
+    }
+}
+proof fn theorem_string_round_trip(b: Seq<u8>)
+    ensures str_dec(str_enc(b)) == b
+{
+    if b.len() == 0 {
+        reveal_with_fuel(enc, 2);
+        assert(enc(b, 0, 0) =~= Seq::<u8>::empty());
+        assert(b =~= Seq::<u8>::empty());
+    } else {
+        lemma_enc_at_least_two(b);
+        theorem_chunks_round_trip(b);
+    }
+}
+
+// a Vec of bytes never holds more than isize::MAX of them
+#[verifier::external_body]
+proof fn axiom_vec_len(v: &Vec<u8>) ensures v@.len() <= 0x7fff_ffff_ffff_ffff { }
+struct TupleKey { buf: Vec<u8> }
+impl TupleKey {
+    // append_bytes at the iterator type the String element hands it (generic `impl Iterator<Item = u8>`: X25)
+//@ extract tuple_key/src/lib.rs | impl TupleKey :: fn append_bytes
+//@ ret r
+//@ rewrite X25 `iter: impl Iterator<Item = u8>` => `iter: Iterate7BitChunks<'_>`
+//@ rewrite X13 `for c in iter {` => `let mut iter = iter; while let Some(c) = iter.next() {`
+//@ pre <<
+        iter.wf(),
+//@ >>
+//@ post <<
+        final(self).buf@ == old(self).buf@ + iter.to_come(), r == iter.to_come().len(),
+//@ >>
+//@ loop 0 <<
+            invariant iter.wf(), count == self.buf@.len() - old(self).buf@.len(),
+                /* contract-inv */ self.buf@ + iter.to_come() == old(self).buf@ + all,
+            ensures count == self.buf@.len() - old(self).buf@.len(), self.buf@ == old(self).buf@ + all,
+            decreases iter.to_come().len(),
+//@ >>
+//@ bodystart <<
+        let ghost all = iter.to_come();
+        proof { assert(self.buf@ + all == old(self).buf@ + all); }
+//@ >>
+//@ startloop 0 <<
+            let ghost before = self.buf@;
+            proof { axiom_vec_len(&self.buf); }
+//@ >>
+//@ endloop 0 <<
+            proof { assert(before.push(c) + iter.to_come() =~= before + (seq![c] + iter.to_come())); }
+//@ >>
+//@ end
+    // `key.append_bytes(&mut [0u8].iter().copied())`: one zero byte
+    #[verifier::external_body]
+    fn append_zero_byte(&mut self) -> (r: usize) ensures final(self).buf@ == old(self).buf@.push(0u8), r == 1 { unimplemented!() }
+}
+// Iterator::collect over the combiner: next() until None (X13)
+fn collect_chunks(c: Combine7BitChunks<'_>) -> (r: Vec<u8>)
+    requires c.wf()
+    ensures r@ == c.to_come()
+{
+    let mut c = c;
+    let ghost all = c.to_come();
+    let mut out: Vec<u8> = Vec::new();
+    proof { assert(out@ + all =~= all); }
+    while let Some(x) = c.next()
+        invariant c.wf(), out@ + c.to_come() == all,
+        ensures out@ == all,
+        decreases c.to_come().len(),
+    {
+        let ghost before = out@;
+        out.push(x);
+        proof { assert(before.push(x) + c.to_come() =~= before + (seq![x] + c.to_come())); }
+    }
+    out
+}
+uninterp spec fn str_bytes(s: String) -> Seq<u8>;
+#[verifier::external_body]
+fn string_bytes(s: &String) -> (r: &[u8]) ensures r@ == str_bytes(*s) { unimplemented!() }
+#[verifier::external_body]
+fn string_empty() -> (r: String) ensures str_bytes(r) == Seq::<u8>::empty() { unimplemented!() }
+// String::from_utf8(v).map_err(..): the string it accepts has exactly those bytes
+#[verifier::external_body]
+fn string_from_utf8(v: Vec<u8>) -> (r: Result<String, &'static str>) ensures r is Ok ==> str_bytes(r->Ok_0) == v@ { unimplemented!() }
+
+struct ElementForString { }
+impl ElementForString {
+//@ extract tuple_key/src/lib.rs | impl Element for String :: fn append_to
+//@ rewrite X24 `fn append_to(&self, key: &mut TupleKey)` => `fn append_to(this: &String, key: &mut TupleKey)`
+//@ rewrite-re X7 `\bself\.as_bytes\(\)` => `string_bytes(this)`
+//@ rewrite-re? X7 `key\.append_bytes\(&mut \[0u8\]\.iter\(\)\.copied\(\)\);` => `key.append_zero_byte();`
+//@ post <<
+        final(key).buf@ == old(key).buf@ + str_enc(str_bytes(*this)),
+//@ >>
+//@ end
+//@ extract tuple_key/src/lib.rs | impl Element for String :: fn parse_from
+//@ ret r
+//@ rewrite X24 `fn parse_from(buf: &[u8]) -> Result<Self, &'static str>` => `fn parse_from(buf: &[u8]) -> Result<String, &'static str>`
+//@ rewrite X7 `String::new()` => `string_empty()`
+//@ rewrite-re X13 `String::from_utf8\((\w+)\.collect\(\)\)\.map_err\(\|_\| "[^"]*"\)` => `string_from_utf8(collect_chunks(\1))`
+//@ post <<
+        r is Ok ==> str_bytes(r->Ok_0) == str_dec(buf@),
+//@ >>
+//@ end
+}
+
 //@ contract-lemma theorem_chunks_preserve_order
+//@ contract-lemma theorem_string_round_trip
 //@ contract-lemma theorem_chunks_round_trip
-//@ min-verified 40
+//@ min-verified 45
 } // verus!
 fn main() {}
